@@ -168,7 +168,9 @@ class ProgGen:
             a.push(base).push(0x260).op("MSTORE")
             a.push(0x80).push(0x200).op("SHA3")
         elif k == "array2d":
-            # a[i][j] of a uint[][] at `base`: keccak(keccak(base) + i) + j
+            # a[i][j] of a uint[][]: keccak(keccak(base) + i) + j.  Generation bound: a base slot has one type, as in Solidity -
+            # the 2-D arrays live at their own base (10), never at a base that is also used as a mapping or a 1-D array
+            base = 10
             self.key_expr(lbl + ".i", small=True)
             a.push(base).push(0).op("MSTORE")
             a.push(0x20).push(0).op("SHA3")
